@@ -128,7 +128,53 @@ Proof.
   destruct c as [cx cy], v as [vx vy], w as [wx wy]. intros Hhi.
   unfold chk_chord, chord_ok, in_cone, dist2, nrm2, vdot, vcross, vsub, lerp, lerp1, sqr, px, py. cbn [fst snd].
   rewrite !andb_true_iff. intros [[[HA HB] HL] HS].
-  apply Qleb_le in HA, HB. apply sgn_ok_spec in HS.
+  apply Qleb_le in HA, HB. apply orb_true_iff in HS as [HS|HD]; [apply sgn_ok_spec in HS | ].
+  2: { (* the chord is a diameter and the inner radius is not positive: the centre is a point of the chord *)
+    apply andb_true_iff in HD as [HD Hdot]. apply andb_true_iff in HD as [Hcr Hlo0].
+    apply Qeq_bool_iff in Hcr. apply Qleb_le in Hlo0. apply Qltb_lt in Hdot.
+    set (ax := vx - cx) in *. set (ay := vy - cy) in *. set (bx := wx - cx) in *. set (by_ := wy - cy) in *.
+    set (ex := wx - vx) in *. set (ey := wy - vy) in *.
+    assert (Eex: ex == bx - ax) by (unfold ex, bx, ax; ring). assert (Eey: ey == by_ - ay) by (unfold ey, by_, ay; ring).
+    assert (IN: forall lam, 0 <= lam -> lam <= 1 ->
+              (ax + (bx - ax) * lam) * (ax + (bx - ax) * lam) + (ay + (by_ - ay) * lam) * (ay + (by_ - ay) * lam) <= hi * hi).
+    { intros lam L0 L1. apply chord_in_disc; assumption. }
+    split; [|split].
+    - intros lam L0 L1.
+      assert (E1: vx + ex * lam - cx == ax + (bx - ax) * lam) by (unfold ex, ax, bx; ring).
+      assert (E2: vy + ey * lam - cy == ay + (by_ - ay) * lam) by (unfold ey, ay, by_; ring).
+      rewrite E1, E2. apply IN; assumption.
+    - intros Hlo. lra.
+    - intros r D [Px Py]. cbn [fst snd]. intros Hr HP HD0 Hlo Hhi2 _.
+      set (aa := ax * ax + ay * ay). set (ab := ax * bx + ay * by_) in *.
+      assert (Haa : 0 < aa).
+      { pose proof (Qsq_nonneg ax). pose proof (Qsq_nonneg ay). unfold aa.
+        destruct (Qlt_le_dec 0 (ax * ax + ay * ay)) as [G|G]; [exact G|]. exfalso.
+        assert (Zx: ax == 0) by (apply Qsq_zero; lra). assert (Zy: ay == 0) by (apply Qsq_zero; lra).
+        assert (Z : ab == 0) by (unfold ab; rewrite Zx, Zy; ring). lra. }
+      assert (Hden : 0 < aa - ab) by lra.
+      exists (aa / (aa - ab)).
+      assert (L0 : 0 <= aa / (aa - ab)) by (apply Qle_shift_div_l; [exact Hden | lra]).
+      assert (L1 : aa / (aa - ab) <= 1) by (apply Qle_shift_div_r; [exact Hden | lra]).
+      split; [exact L0 | split; [exact L1 |]].
+      (* the point of the chord at that parameter is the centre *)
+      assert (Zx : vx + ex * (aa / (aa - ab)) == cx).
+      { assert (K : (vx + ex * (aa / (aa - ab)) - cx) * (aa - ab) == ax * (aa - ab) + (bx - ax) * aa).
+        { unfold ex, ax, bx. field. lra. }
+        assert (K2 : ax * (aa - ab) + (bx - ax) * aa == ay * (ay * bx - ax * by_)) by (unfold aa, ab; ring).
+        assert (K3 : ay * bx - ax * by_ == 0) by lra.
+        assert (K4 : (vx + ex * (aa / (aa - ab)) - cx) * (aa - ab) == 0) by (rewrite K, K2, K3; ring).
+        apply Qmult_integral in K4. destruct K4 as [K4|K4]; lra. }
+      assert (Zy : vy + ey * (aa / (aa - ab)) == cy).
+      { assert (K : (vy + ey * (aa / (aa - ab)) - cy) * (aa - ab) == ay * (aa - ab) + (by_ - ay) * aa).
+        { unfold ey, ay, by_. field. lra. }
+        assert (K2 : ay * (aa - ab) + (by_ - ay) * aa == ax * (ax * by_ - ay * bx)) by (unfold aa, ab; ring).
+        assert (K3 : ax * by_ - ay * bx == 0) by lra.
+        assert (K4 : (vy + ey * (aa / (aa - ab)) - cy) * (aa - ab) == 0) by (rewrite K, K2, K3; ring).
+        apply Qmult_integral in K4. destruct K4 as [K4|K4]; lra. }
+      rewrite Zx, Zy. rewrite HP.
+      assert (r <= D) by lra.
+      assert (0 <= (D - r) * (D + r)) by (apply Qmult_le_0_compat; lra).
+      lra. }
   set (ax := vx - cx) in *. set (ay := vy - cy) in *. set (bx := wx - cx) in *. set (by_ := wy - cy) in *.
   set (ex := wx - vx) in *. set (ey := wy - vy) in *.
   assert (Eex: ex == bx - ax) by (unfold ex, bx, ax; ring). assert (Eey: ey == by_ - ay) by (unfold ey, by_, ay; ring).
